@@ -265,6 +265,33 @@ var validColumnTypes = map[string]bool{
 // columnTypePattern matches valid column type definitions
 var columnTypePattern = regexp.MustCompile(`^[A-Za-z][A-Za-z0-9_ (),.]*$`)
 
+// isSingleColumnType reports whether a column type that passed the character
+// filter stays inside one column definition: parentheses are balanced and not
+// nested, and commas appear only inside them (as in DECIMAL(10, 2)). A comma
+// outside parentheses would start another column definition in CREATE TABLE.
+func isSingleColumnType(colType string) bool {
+	depth := 0
+	for _, c := range colType {
+		switch c {
+		case '(':
+			depth++
+			if depth > 1 {
+				return false
+			}
+		case ')':
+			depth--
+			if depth < 0 {
+				return false
+			}
+		case ',':
+			if depth == 0 {
+				return false
+			}
+		}
+	}
+	return depth == 0
+}
+
 // sanitizeColumnType validates a column type definition
 func sanitizeColumnType(colType string) (string, error) {
 	if colType == "" {
@@ -276,6 +303,9 @@ func sanitizeColumnType(colType string) (string, error) {
 
 	// Check against pattern to prevent injection
 	if !columnTypePattern.MatchString(colType) {
+		return "", fmt.Errorf("invalid column type: %s", colType)
+	}
+	if !isSingleColumnType(colType) {
 		return "", fmt.Errorf("invalid column type: %s", colType)
 	}
 
